@@ -25,6 +25,7 @@ type Harness struct {
 	Quick     map[string]int // concrete bounds (harness parameters) per tier
 	Thorough  map[string]int
 	Redirects map[string]string
+	Summaries []string // pure callees summarised into one term per call (DESIGN 2.2)
 	MapOrder  string
 	MapBudget int
 	Reach     []string // labels that must be reached on some feasible path (vacuity guard)
@@ -246,7 +247,7 @@ func explore(pkg string, runs []*harnessRun, logf func(string, ...interface{})) 
 				}
 				job := exec.Job{Fn: r.h.Fn, Params: r.params, Prefixes: pfx, MaxPaths: chunk, MaxSteps: r.h.MaxSteps,
 					MaxDepth: r.h.MaxDepth, TimeoutMs: r.h.TimeoutMs, Redirects: r.h.Redirects, MapOrder: r.h.MapOrder,
-					MapBudget: r.h.MapBudget, SampleEach: 7}
+					MapBudget: r.h.MapBudget, SampleEach: 7, Summaries: r.h.Summaries}
 				res, err := w.run(job)
 				mu.Lock()
 				r.inflight--
